@@ -5,6 +5,8 @@ Theorems about the model `Infretis.ZeroSwap.retisSwapZero` / `quantisSwapZero`
 (Model/ZeroSwap.lean mirrors tis.py:798-1010 and 1064-1324 branch by branch).
 -/
 import Infretis.Lemmas.ZeroSwapTwice
+import Infretis.Lemmas.ZeroSwapAlg
+import Infretis.Lemmas.ZeroSwapTwiceV
 
 namespace Infretis.C11
 open Infretis.ZeroSwap Infretis.Engine
@@ -739,5 +741,883 @@ example : ∃ r1 r2,
 /-- non-vacuity: energies exactly 0 on both shooting points, and the swap is accepted -/
 example : ∃ r, quantisSwapZero Ex.e0 Ex.e1 Ex.old0 Ex.old1 Ex.scA Ex.scB Ex.bw Ex.fw true 1 1 0 1 = .ok r ∧
     r.status = .ACC ∧ (Ex.fr (-1) 200).vpot = some 0 ∧ (Ex.fr (-2) 102).vpot = some 0 := ⟨_, rfl, rfl, rfl, rfl⟩
+
+/-! ## Extension pass: status tables, QuanTIS frames and exponent, path algebra of C15 -/
+
+/-- **status table of `retis_swap_zero`** (every outcome the code can return).  Either the λ₋₁ early return
+    ('0-L', old paths handed back, no request, no draw, no status field touched), or the move built both paths
+    and the returned status is `retisTable` of the two per-path statuses: the failure of the new [0-] path if
+    it has one (BTX: length = maxlen0; BTS: shorter than 3; 0-L), else that of the new [0+] path (FTX: length ≥
+    maxlen1; FTS), else 'HAS' when wire fencing is involved and `high_acc_swap` said no, else 'ACC'.
+    `accept ⇔ ACC`; the [0-] path object always carries the returned status, the [0+] path object its own failure
+    if it has one (so the two fields differ exactly when both paths failed); ξ is drawn exactly when both paths are
+    fine and wire fencing is involved, and then after all four engine requests. -/
+theorem retis_status_table {e0 e1 : Ens} {old0 old1 : List Frame} {bw fw : Script} {xi : Rat} {r : Result}
+    (h : retisSwapZero e0 e1 old0 old1 bw fw xi = .ok r) :
+    ∃ last0, old0.getLast? = some last0 ∧
+      ((earlyLeft e0 last0 = true ∧ r.status = .ZL ∧ r.accept = false ∧ r.st0 = .none ∧ r.st1 = .none ∧
+          r.path0 = old0 ∧ r.path1 = old1 ∧ r.reqs = [] ∧ r.draws = 0) ∨
+       (earlyLeft e0 last0 = false ∧ ∃ a : Bool,
+          (status0 e0 r.path0 = .ACC → status1 e1 r.path1 = .ACC → (e0.wf || e1.wf) = true →
+            highAcc e0 e1 r.path1 old1 xi = .ok a) ∧
+          r.status = retisTable (status0 e0 r.path0) (status1 e1 r.path1) (e0.wf || e1.wf) a ∧
+          r.accept = decide (r.status = .ACC) ∧ r.st0 = r.status ∧
+          r.st1 = retisField1 (status1 e1 r.path1) r.status ∧
+          r.draws = (if status0 e0 r.path0 = .ACC ∧ status1 e1 r.path1 = .ACC ∧ (e0.wf || e1.wf) = true then 1 else 0) ∧
+          retisDrawAt r = (if r.draws = 0 then none else some r.reqs.length))) := by
+  obtain ⟨_, last0, hlast, hcase⟩ := retis_ok h
+  refine ⟨last0, hlast, ?_⟩
+  rcases hcase with ⟨he, rfl⟩ | ⟨he, path0, rq0, path1, rq1, _, _, hf⟩
+  · exact Or.inl ⟨he, rfl, rfl, rfl, rfl, rfl, rfl, rfl, rfl⟩
+  · right
+    obtain ⟨hp0, hp1, _, _, _⟩ := finish_spec hf
+    obtain ⟨a, ha, hst, hacc, h0, h1, hd, _⟩ := finish_table hf
+    rw [hp0, hp1]
+    exact ⟨he, a, ha, hst, hacc, h0, h1, hd, rfl⟩
+
+/-- the table read row by row: for per-path statuses in their ranges (`status0` ∈ {BTX, BTS, 0-L, ACC},
+    `status1` ∈ {FTX, FTS, ACC}) each status is returned under exactly one condition -/
+theorem retis_table_rows (s0 s1 : Status) (wf a : Bool)
+    (h0 : s0 = .BTX ∨ s0 = .BTS ∨ s0 = .ZL ∨ s0 = .ACC) (h1 : s1 = .FTX ∨ s1 = .FTS ∨ s1 = .ACC) :
+    (retisTable s0 s1 wf a = .BTX ↔ s0 = .BTX) ∧ (retisTable s0 s1 wf a = .BTS ↔ s0 = .BTS) ∧
+    (retisTable s0 s1 wf a = .ZL ↔ s0 = .ZL) ∧
+    (retisTable s0 s1 wf a = .FTX ↔ s0 = .ACC ∧ s1 = .FTX) ∧ (retisTable s0 s1 wf a = .FTS ↔ s0 = .ACC ∧ s1 = .FTS) ∧
+    (retisTable s0 s1 wf a = .HAS ↔ s0 = .ACC ∧ s1 = .ACC ∧ wf = true ∧ a = false) ∧
+    (retisTable s0 s1 wf a = .ACC ↔ s0 = .ACC ∧ s1 = .ACC ∧ (wf = true → a = true)) ∧
+    (retisField1 s1 (retisTable s0 s1 wf a) = retisTable s0 s1 wf a ↔ s0 = .ACC ∨ s1 = .ACC) := by
+  rcases h0 with rfl | rfl | rfl | rfl <;> rcases h1 with rfl | rfl | rfl <;> cases wf <;> cases a <;>
+    simp [retisTable, retisField1]
+
+/-- the per-path statuses in terms of lengths and end points (tis.py:915-925, 968-973), incl. the two
+    length-limit outcomes: BTX ⇔ the new [0-] path has EXACTLY `maxlen0` frames, FTX ⇔ the new [0+] path has
+    AT LEAST `maxlen1` frames -/
+theorem path_status_rows (e : Ens) (p : List Frame) :
+    (status0 e p = .BTX ↔ p.length = e.maxlen) ∧
+    (status0 e p = .BTS ↔ p.length ≠ e.maxlen ∧ p.length < 3) ∧
+    (status0 e p = .ZL ↔ p.length ≠ e.maxlen ∧ 3 ≤ p.length ∧ e.scL = false ∧
+        (startIsL e.lo p = true ∨ endIsL e.lo p = true)) ∧
+    (status1 e p = .FTX ↔ e.maxlen ≤ p.length) ∧
+    (status1 e p = .FTS ↔ p.length < e.maxlen ∧ p.length < 3) ∧
+    (status1 e p = .ACC ↔ p.length < e.maxlen ∧ 3 ≤ p.length) := by
+  unfold status0 status1
+  by_cases h1 : p.length = e.maxlen <;> by_cases h2 : p.length < 3 <;> by_cases h3 : e.maxlen ≤ p.length <;>
+    cases hs : e.scL <;> cases ha : startIsL e.lo p <;> cases hb : endIsL e.lo p <;>
+    simp [h1, h2, h3] <;> omega
+
+example : ∃ r, retisSwapZero Ex.e0 Ex.e1 Ex.old0 Ex.old1 Ex.bw Ex.fw 0 = .ok r ∧ r.status = .ACC ∧
+    r.st0 = .ACC ∧ r.st1 = .ACC ∧ retisDrawAt r = none := ⟨_, rfl, rfl, rfl, rfl, rfl⟩
+
+/-- both new paths fail (BTX and FTX): the returned status is that of the [0-] path and the two status
+    fields differ -/
+example : ∃ r, retisSwapZero { Ex.e0 with maxlen := 5 } { Ex.e1 with maxlen := 5 } Ex.old0 Ex.old1 Ex.bw Ex.fw 0 = .ok r ∧
+    r.status = .BTX ∧ r.st0 = .BTX ∧ r.st1 = .FTX := ⟨_, rfl, rfl, rfl, rfl⟩
+
+
+/-- **status table of `quantis_swap_zero`.**  Whatever the inputs, a returned result has one of fourteen
+    statuses; the move is accepted exactly on 'ACC'; the status fields of the two returned path objects are those
+    of `quantisFields` (they agree with the returned status except: QS1 and QR* leave the first path without a
+    status, a failed [0-] completion (BTX/BTS/0-L) leaves the second without one, and a failed [0+] completion
+    (FTX/FTS/0+R) returns the new [0-] path still marked 'ACC'); ξ is drawn exactly when the status is not one of
+    the four pre-checks QNE/QLL/QS0/QS1, and then after exactly two engine requests; 'QEA' is returned exactly
+    when the energy rule was evaluated, `accept_all` is off and ξ > min(1, p). -/
+theorem quantis_status_table {e0 e1 : Ens} {old0 old1 : List Frame} {scA scB scC scD : Script} {aa : Bool}
+    {b0 b1 xi p : Rat} {r : Result}
+    (h : quantisSwapZero e0 e1 old0 old1 scA scB scC scD aa b0 b1 xi p = .ok r) :
+    r.accept = decide (r.status = .ACC) ∧ (r.st0, r.st1) = quantisFields r.status ∧
+    r.status ∈ [Status.QNE, .QLL, .QS0, .QS1, .QEA, .QRS, .BTX, .BTS, .ZL, .QLR, .FTX, .FTS, .ZR, .ACC] ∧
+    r.draws = (if r.status = .QNE ∨ r.status = .QLL ∨ r.status = .QS0 ∨ r.status = .QS1 then 0 else 1) ∧
+    quantisDrawAt r = (if r.draws = 0 then none else some 2) ∧
+    (r.status = .QEA ↔ r.draws = 1 ∧ aa = false ∧ ¬ xi ≤ min 1 p) ∧
+    (r.draws = 0 → r.reqs.length ≤ 2 ∧ r.expArg = none) := by
+  unfold quantisSwapZero at h
+  cases hpre : quantisPre e0 old0 old1 scA scB b0 b1 with
+  | err e => simp [hpre] at h
+  | early st p0 p1 s0 s1 reqs =>
+    simp only [hpre, Except.ok.injEq] at h
+    subst h
+    obtain ⟨hst, hf, hl⟩ := quantisPre_early hpre
+    simp only [qres, quantisDrawAt]
+    rcases hst with rfl | rfl | rfl | rfl <;> simp_all
+  | reached tmp0 tmp1 reqs ea sc1L =>
+    have hlen := quantisPre_reached hpre
+    simp only [hpre] at h
+    split at h
+    · rename_i hbr
+      unfold quantisComplete at h
+      split at h
+      · cases h
+      · rename_i a st p0 p1 s0 s1 w rq hc
+        simp only [Except.ok.injEq] at h
+        subst h
+        obtain ⟨hacc, hf, hr⟩ := core_table hc
+        obtain ⟨more, hm⟩ := core_reqs hc
+        simp only at hacc hf hr hm
+        have hmin : min 2 rq.length = 2 := by rw [hm]; simp; omega
+        have hbr' : ¬ (aa = false ∧ ¬ xi ≤ min 1 p) := by
+          intro ⟨h1, h2⟩
+          simp [h1, h2] at hbr
+        simp only [qres, quantisDrawAt, hmin]
+        refine ⟨?_, hf, ?_, ?_, by simp, ?_, by simp⟩
+        · cases a <;> simp_all
+        · rcases hr with h | h | h | h | h | h | h | h | h <;> simp [h]
+        · rcases hr with h | h | h | h | h | h | h | h | h <;> simp [h]
+        · rcases hr with h | h | h | h | h | h | h | h | h <;> simp [h] <;> exact fun h1 => by simp_all
+    · rename_i hbr
+      simp only [Except.ok.injEq] at h
+      subst h
+      have hbr' : aa = false ∧ ¬ xi ≤ min 1 p := by
+        cases aa <;> simp_all
+      simp [qres, quantisDrawAt, quantisFields, hlen, hbr'.1, hbr'.2]
+
+
+theorem quantis_run_early {e0 e1 : Ens} {old0 old1 : List Frame} {scA scB scC scD : Script} {aa : Bool}
+    {b0 b1 xi p : Rat} {r : Result} {st : Status} {p0 p1 : List Frame} {s0 s1 : Status} {rq : List Req}
+    (hpre : quantisPre e0 old0 old1 scA scB b0 b1 = .early st p0 p1 s0 s1 rq)
+    (h : quantisSwapZero e0 e1 old0 old1 scA scB scC scD aa b0 b1 xi p = .ok r) :
+    r.status = st ∧ r.draws = 0 ∧ r.accept = false := by
+  unfold quantisSwapZero at h
+  simp only [hpre, Except.ok.injEq] at h
+  subst h
+  exact ⟨rfl, rfl, rfl⟩
+
+theorem quantis_run_reached {e0 e1 : Ens} {old0 old1 : List Frame} {scA scB scC scD : Script} {aa : Bool}
+    {b0 b1 xi p : Rat} {r : Result} {tmp0 tmp1 : List Frame} {reqs : List Req} {ea : Rat} {sc1L : Bool}
+    (hpre : quantisPre e0 old0 old1 scA scB b0 b1 = .reached tmp0 tmp1 reqs ea sc1L)
+    (h : quantisSwapZero e0 e1 old0 old1 scA scB scC scD aa b0 b1 xi p = .ok r) :
+    r.draws = 1 ∧ r.expArg = some ea ∧ (∃ more, r.reqs = reqs ++ more) ∧
+    (r.accept = true → ∃ out : CoreOut,
+      quantisCompleteCore e0 e1 e0.i2 e0.maxlen e0.maxlen sc1L tmp0 tmp1 scC scD reqs = .ok out ∧
+      out.1 = true ∧ r.path0 = out.2.2.1 ∧ r.path1 = out.2.2.2.1 ∧ r.reqs = out.2.2.2.2.2.2.2) := by
+  unfold quantisSwapZero at h
+  simp only [hpre] at h
+  split at h
+  · unfold quantisComplete at h
+    split at h
+    · cases h
+    · rename_i a st p0 p1 s0 s1 w rq hc
+      simp only [Except.ok.injEq] at h
+      subst h
+      obtain ⟨more, hm⟩ := core_reqs hc
+      refine ⟨rfl, rfl, ⟨more, hm⟩, ?_⟩
+      intro ha
+      exact ⟨_, hc, ha, rfl, rfl, rfl⟩
+  · simp only [Except.ok.injEq] at h
+    subst h
+    exact ⟨rfl, rfl, ⟨[], by simp [qres]⟩, by simp [qres]⟩
+
+/-- **input-level table of the four pre-checks and of "the energy rule is evaluated"** for well-formed paths
+    (`sp0` = first frame of the old [0+] path, `sp1` = second-last frame of the old [0-] path):
+    QNE ⇔ an energy is missing (`None`; 0.0 is an energy); QLL ⇔ energies present and a shooting point is not
+    strictly left of λ0; QS0 / QS1 ⇔ the one-step crossing (`oneStep`: shooting point not left of λ₋₁, the MD
+    program produced a next frame, that frame strictly right of λ0) failed for [0-] / for [0+]; ξ is drawn ⇔
+    all of these hold. -/
+theorem quantis_input_table {e0 e1 : Ens} {pre0 rest1 : List Frame} {sp1 last sp0 : Frame}
+    {scA scB scC scD : Script} {aa : Bool} {b0 b1 xi p : Rat} {r : Result}
+    (h : quantisSwapZero e0 e1 (pre0 ++ [sp1, last]) (sp0 :: rest1) scA scB scC scD aa b0 b1 xi p = .ok r) :
+    (r.status = .QNE ↔ sp0.vpot = none ∨ sp1.vpot = none) ∧
+    (r.status = .QLL ↔ sp0.vpot ≠ none ∧ sp1.vpot ≠ none ∧ ¬ (sp0.op < e0.i2 ∧ sp1.op < e0.i2)) ∧
+    (r.status = .QS0 ↔ sp0.vpot ≠ none ∧ sp1.vpot ≠ none ∧ sp0.op < e0.i2 ∧ sp1.op < e0.i2 ∧
+        oneStep e0 sp0 scA = none) ∧
+    (r.status = .QS1 ↔ sp0.vpot ≠ none ∧ sp1.vpot ≠ none ∧ sp0.op < e0.i2 ∧ sp1.op < e0.i2 ∧
+        oneStep e0 sp0 scA ≠ none ∧ oneStep e0 sp1 scB = none) ∧
+    (r.draws = 1 ↔ sp0.vpot ≠ none ∧ sp1.vpot ≠ none ∧ sp0.op < e0.i2 ∧ sp1.op < e0.i2 ∧
+        oneStep e0 sp0 scA ≠ none ∧ oneStep e0 sp1 scB ≠ none) := by
+  obtain ⟨cA, cB, cC, cD, cE⟩ := quantisPre_cases e0 pre0 rest1 sp1 last sp0 scA scB b0 b1
+  obtain ⟨_, _, _, hdraws, _⟩ := quantis_status_table h
+  by_cases hn : sp0.vpot = none ∨ sp1.vpot = none
+  · obtain ⟨hs, hd, _⟩ := quantis_run_early (cA hn) h
+    have : ¬ (sp0.vpot ≠ none ∧ sp1.vpot ≠ none) := by
+      rcases hn with h' | h' <;> simp [h']
+    simp [hs, hd, hn]
+    refine ⟨?_, ?_, ?_, ?_⟩ <;> intro a b <;> exact absurd ⟨a, b⟩ this
+  · have h0 : sp0.vpot ≠ none := fun e => hn (Or.inl e)
+    have h1 : sp1.vpot ≠ none := fun e => hn (Or.inr e)
+    by_cases hl : sp0.op < e0.i2 ∧ sp1.op < e0.i2
+    · obtain ⟨hl0, hl1⟩ := hl
+      cases ho0 : oneStep e0 sp0 scA with
+      | none =>
+        obtain ⟨tmp0, hP, _⟩ := cC h0 h1 hl0 hl1 ho0
+        obtain ⟨hs, hd, _⟩ := quantis_run_early hP h
+        simp [hs, hd, hn, h0, h1, hl0, hl1, ho0]
+      | some g0 =>
+        cases ho1 : oneStep e0 sp1 scB with
+        | none =>
+          obtain ⟨tmp1, hP, _⟩ := cD g0 h0 h1 hl0 hl1 ho0 ho1
+          obtain ⟨hs, hd, _⟩ := quantis_run_early hP h
+          simp [hs, hd, hn, h0, h1, hl0, hl1, ho0, ho1]
+        | some g1 =>
+          obtain ⟨v0r0, hv1⟩ := Option.ne_none_iff_exists'.mp h1
+          obtain ⟨v1r1, hv0⟩ := Option.ne_none_iff_exists'.mp h0
+          obtain ⟨hok, hbad⟩ := cE g0 g1 v0r0 v1r1 hv1 hv0 hl0 hl1 ho0 ho1
+          cases hA : scA.v0 with
+          | none =>
+            have := hbad (Or.inl hA)
+            unfold quantisSwapZero at h
+            simp [this] at h
+          | some v0r1 =>
+            cases hB : scB.v0 with
+            | none =>
+              have := hbad (Or.inr hB)
+              unfold quantisSwapZero at h
+              simp [this] at h
+            | some v1r0 =>
+              obtain ⟨hd, _, _, _⟩ := quantis_run_reached (hok v0r1 v1r0 hA hB) h
+              rw [hd] at hdraws
+              have hst : ¬ (r.status = .QNE ∨ r.status = .QLL ∨ r.status = .QS0 ∨ r.status = .QS1) := by
+                intro hh; rw [if_pos hh] at hdraws; cases hdraws
+              simp only [not_or] at hst
+              simp [hst.1, hst.2.1, hst.2.2.1, hst.2.2.2, hd, hn, h0, h1, hl0, hl1, ho0, ho1]
+    · obtain ⟨hs, hd, _⟩ := quantis_run_early (cB h0 h1 hl) h
+      have hl' : ¬ (sp0.op < e0.i2 ∧ sp1.op < e0.i2) := hl
+      simp [hs, hd, h0, h1]
+      refine ⟨?_, ?_, ?_, ?_⟩ <;> (intros; omega)
+
+
+/-- **which frames and energies enter the QuanTIS energy rule, and when ξ is drawn.**  Whenever ξ is drawn (well-
+    formed paths), the exponent handed to `exp` is `β₀·(V₀(r₀) − V₀(r₁)) − β₁·(V₁(r₀) − V₁(r₁))` with
+    `V₀(r₀)` = stored energy of the SECOND-LAST frame of the old [0-] path, `V₁(r₁)` = stored energy of the FIRST
+    frame of the old [0+] path, `V₀(r₁)` = energy engine 0 reports for frame 0 of its one-step trajectory from
+    that first frame, `V₁(r₀)` = energy engine 1 reports for frame 0 of its one-step trajectory from that
+    second-last frame; both one-step crossings succeeded; and the draw comes after exactly these two requests:
+    engine 0 forward from the [0+] frame, engine 1 forward from the [0-] frame, both into a path of 2 frames and
+    both with the interfaces of [0-] (the code hands `ens_set0` to engine 1, too). -/
+theorem quantis_energy_rule_frames {e0 e1 : Ens} {pre0 rest1 : List Frame} {sp1 last sp0 : Frame}
+    {scA scB scC scD : Script} {aa : Bool} {b0 b1 xi p : Rat} {r : Result}
+    (h : quantisSwapZero e0 e1 (pre0 ++ [sp1, last]) (sp0 :: rest1) scA scB scC scD aa b0 b1 xi p = .ok r)
+    (hd : r.draws = 1) :
+    ∃ v0r0 v0r1 v1r1 v1r0 g0 g1,
+      sp1.vpot = some v0r0 ∧ scA.v0 = some v0r1 ∧ sp0.vpot = some v1r1 ∧ scB.v0 = some v1r0 ∧
+      oneStep e0 sp0 scA = some g0 ∧ oneStep e0 sp1 scB = some g1 ∧
+      r.expArg = some (b0 * ((v0r0 : Rat) - (v0r1 : Rat)) - b1 * ((v1r0 : Rat) - (v1r1 : Rat))) ∧
+      r.reqs.take 2 = [propReq 0 2 e0.i0 e0.i2 sp0 false, propReq 1 2 e0.i0 e0.i2 sp1 false] ∧
+      quantisDrawAt r = some 2 := by
+  obtain ⟨_, _, _, _, cE⟩ := quantisPre_cases e0 pre0 rest1 sp1 last sp0 scA scB b0 b1
+  obtain ⟨h0, h1, hl0, hl1, ho0, ho1⟩ := (quantis_input_table h).2.2.2.2.mp hd
+  obtain ⟨_, _, _, _, hat, _, _⟩ := quantis_status_table h
+  obtain ⟨v0r0, hv1⟩ := Option.ne_none_iff_exists'.mp h1
+  obtain ⟨v1r1, hv0⟩ := Option.ne_none_iff_exists'.mp h0
+  obtain ⟨g0, hg0⟩ := Option.ne_none_iff_exists'.mp ho0
+  obtain ⟨g1, hg1⟩ := Option.ne_none_iff_exists'.mp ho1
+  obtain ⟨hok, hbad⟩ := cE g0 g1 v0r0 v1r1 hv1 hv0 hl0 hl1 hg0 hg1
+  cases hA : scA.v0 with
+  | none =>
+    have := hbad (Or.inl hA)
+    unfold quantisSwapZero at h
+    simp [this] at h
+  | some v0r1 =>
+    cases hB : scB.v0 with
+    | none =>
+      have := hbad (Or.inr hB)
+      unfold quantisSwapZero at h
+      simp [this] at h
+    | some v1r0 =>
+      obtain ⟨_, hea, ⟨more, hm⟩, _⟩ := quantis_run_reached (hok v0r1 v1r0 hA hB) h
+      refine ⟨v0r0, v0r1, v1r1, v1r0, g0, g1, hv1, rfl, hv0, rfl, hg0, hg1, ?_, ?_, ?_⟩
+      · rw [hea, quantis_exponent]
+      · rw [hm]; rfl
+      · rw [hat, hd]; rfl
+
+/-- **junction identity of an accepted QuanTIS swap.**  The new [0-] path ends with `g0, x0`: `g0` is the first
+    frame of the old [0+] path (same order value, same phase point, flagged `vel_rev`, carrying the energy engine 0
+    reports for it) and `x0` is the frame engine 0 produced one step after it, strictly right of λ0.  The new
+    [0+] path starts with `f1, x1`: `f1` is the second-last frame of the old [0-] path (same order value, same
+    phase point, not flagged, carrying the energy engine 1 reports for it) and `x1` the frame engine 1 produced
+    one step after it, strictly right of λ0.  Both new paths are strictly shorter than `maxlen0` — QuanTIS reads
+    both limits from the [0-] settings — and have at least 3 frames. -/
+theorem quantis_junction_identity {e0 e1 : Ens} {pre0 rest1 : List Frame} {sp1 last sp0 : Frame}
+    {scA scB scC scD : Script} {aa : Bool} {b0 b1 xi p : Rat} {r : Result}
+    (h : quantisSwapZero e0 e1 (pre0 ++ [sp1, last]) (sp0 :: rest1) scA scB scC scD aa b0 b1 xi p = .ok r)
+    (ha : r.accept = true) :
+    ∃ back g0 x0 f1 x1 fwd,
+      r.path0 = back ++ [g0, genFrame x0 false] ∧ r.path1 = f1 :: genFrame x1 false :: fwd ∧
+      g0.op = sp0.op ∧ g0.phys = sp0.phys ∧ g0.vr = true ∧ g0.vpot = scC.v0 ∧ g0.cfg.x = sp0.cfg.x ∧
+      f1.op = sp1.op ∧ f1.phys = sp1.phys ∧ f1.vr = false ∧ f1.vpot = scB.v0 ∧ f1.cfg.x = sp1.cfg.x ∧
+      oneStep e0 sp0 scA = some x0 ∧ x0.op > e0.i2 ∧ oneStep e0 sp1 scB = some x1 ∧ x1.op > e0.i2 ∧
+      r.path0.length < e0.maxlen ∧ r.path1.length < e0.maxlen ∧ 3 ≤ r.path0.length ∧ 3 ≤ r.path1.length := by
+  obtain ⟨_, _, _, _, cE⟩ := quantisPre_cases e0 pre0 rest1 sp1 last sp0 scA scB b0 b1
+  obtain ⟨hacc, _, _, hdr, _, _, _⟩ := quantis_status_table h
+  have hst : r.status = .ACC := by rw [hacc] at ha; simpa using ha
+  have hd : r.draws = 1 := by rw [hdr, hst]; simp
+  obtain ⟨v0r0, v0r1, v1r1, v1r0, g0, g1, hv1, hA, hv0, hB, hg0, hg1, _, _, _⟩ := quantis_energy_rule_frames h hd
+  obtain ⟨h0, h1, hl0, hl1, _, _⟩ := (quantis_input_table h).2.2.2.2.mp hd
+  obtain ⟨hok, _⟩ := cE g0 g1 v0r0 v1r1 hv1 hv0 hl0 hl1 hg0 hg1
+  obtain ⟨_, _, _, hrun⟩ := quantis_run_reached (hok v0r1 v1r0 hA hB) h
+  obtain ⟨out, hc, hout, hp0, hp1, _⟩ := hrun ha
+  obtain ⟨back, sb, spl, forw, sf, hpb, hn0, hq0, hlast, _, hpf, hn1, hq1, _, _⟩ := core_acc hc hout
+  have hspl : spl = genFrame g1 false := by simpa using hlast.symm
+  -- lengths from the two statuses
+  have hlen0 : out.2.2.1.length < e0.maxlen ∧ 3 ≤ out.2.2.1.length := by
+    unfold qstatus0 at hq0
+    by_cases c1 : out.2.2.1.length ≥ e0.maxlen
+    · rw [if_pos c1] at hq0; cases hq0
+    · rw [if_neg c1] at hq0
+      by_cases c2 : out.2.2.1.length < 3
+      · rw [if_pos c2] at hq0; cases hq0
+      · omega
+  have hlen1 : out.2.2.2.1.length ≠ e0.maxlen ∧ 3 ≤ out.2.2.2.1.length := by
+    unfold qstatus1 at hq1
+    by_cases c1 : out.2.2.2.1.length = e0.maxlen
+    · rw [if_pos c1] at hq1; cases hq1
+    · rw [if_neg c1] at hq1
+      by_cases c2 : out.2.2.2.1.length < 3
+      · rw [if_pos c2] at hq1; cases hq1
+      · exact ⟨c1, by omega⟩
+  have hbl : 2 ≤ back.length := by
+    have := hlen0.2; rw [hn0] at this; simp at this; omega
+  obtain ⟨t, ht⟩ := propagate_head hpb (by omega)
+  -- the forward completion never exceeds its own limit maxlen0 - 1
+  have hfl : forw.length ≤ e0.maxlen - 1 := by
+    obtain ⟨_, _, _, hfo⟩ := propagate_spec hpf
+    have : (ops forw).length ≤ e0.maxlen - 1 := by
+      cases hfo with
+      | crossed pre x post hx ho hpre hcx hlen => rw [ho]; simp; simp at hlen; omega
+      | full pre post hx ho hpre hlen => omega
+      | dry ho hpre hlen => omega
+    simpa [ops_length] using this
+  have hg0x := hg0
+  have hg1x := hg1
+  unfold oneStep at hg0x hg1x
+  have hx0 : g0.op > e0.i2 := by
+    split at hg0x
+    · cases hg0x
+    · split at hg0x
+      · split at hg0x
+        · rename_i hh; simp only [Option.some.injEq] at hg0x; rw [← hg0x]; exact hh
+        · cases hg0x
+      · cases hg0x
+  have hx1 : g1.op > e0.i2 := by
+    split at hg1x
+    · cases hg1x
+    · split at hg1x
+      · split at hg1x
+        · rename_i hh; simp only [Option.some.injEq] at hg1x; rw [← hg1x]; exact hh
+        · cases hg1x
+      · cases hg1x
+  refine ⟨t.reverse, { op := sp0.op, cfg := startCfg (startFrame sp0 scA) true, vr := true, vpot := scC.v0 }, g0,
+    startFrame sp1 scB, g1, forw.tail, ?_, ?_, rfl, ?_, rfl, rfl, ?_, rfl, ?_, rfl, rfl, ?_,
+    hg0, hx0, hg1, hx1, ?_, ?_, ?_, ?_⟩
+  · rw [hp0, hn0, ht]; simp [startFrame]
+  · rw [hp1, hn1]; rfl
+  · exact phys_start (startFrame sp0 scA) true _ _ |>.trans (phys_start sp0 false _ _)
+  · cases hv : sp0.vr <;> simp [startCfg, startFrame, hv, Cfg.flip]
+  · exact phys_start sp1 false _ _
+  · cases hv : sp1.vr <;> simp [startCfg, startFrame, hv, Cfg.flip]
+  · rw [hp0]; exact hlen0.1
+  · rw [hp1]
+    have : out.2.2.2.1.length ≤ e0.maxlen := by
+      rw [hn1]; simp; omega
+    omega
+  · rw [hp0]; exact hlen0.2
+  · rw [hp1]; exact hlen1.2
+
+
+/-- **the QuanTIS acceptance is reversible (detailed balance).**  Let the energies the two engines report be
+    functions `V₀`, `V₁` of the configuration (and let the stored energies of the two old shooting frames be
+    those values, as for paths the engines generated).  If a swap is accepted and the two NEW paths are swapped
+    again far enough for the energy rule to be evaluated, the exponent of the second swap is exactly the negative
+    of the exponent of the first: the second swap uses the frames the first one put at the junctions (second-last
+    of new [0-] = old [0+] first frame with engine 0's energy; first of new [0+] = old [0-] second-last frame with
+    engine 1's energy).  Hence `p_acc(forward) / p_acc(back) = min(1, eˣ) / min(1, e⁻ˣ) = eˣ`. -/
+theorem quantis_detailed_balance (V0 V1 : Int → Int)
+    {e0 e1 : Ens} {pre0 rest1 : List Frame} {sp1 last sp0 : Frame}
+    {scA scB scC scD scA' scB' scC' scD' : Script} {aa aa' : Bool} {b0 b1 xi p xi' p' : Rat} {r1 r2 : Result}
+    (h1 : quantisSwapZero e0 e1 (pre0 ++ [sp1, last]) (sp0 :: rest1) scA scB scC scD aa b0 b1 xi p = .ok r1)
+    (ha : r1.accept = true)
+    (h2 : quantisSwapZero e0 e1 r1.path0 r1.path1 scA' scB' scC' scD' aa' b0 b1 xi' p' = .ok r2)
+    (hd2 : r2.draws = 1)
+    (hold0 : sp1.vpot = some (V0 sp1.cfg.x)) (hold1 : sp0.vpot = some (V1 sp0.cfg.x))
+    (hA : scA.v0 = some (V0 sp0.cfg.x)) (hB : scB.v0 = some (V1 sp1.cfg.x)) (hC : scC.v0 = some (V0 sp0.cfg.x))
+    (hA' : scA'.v0 = some (V0 sp1.cfg.x)) (hB' : scB'.v0 = some (V1 sp0.cfg.x)) :
+    ∃ ea, r1.expArg = some ea ∧ r2.expArg = some (-ea) := by
+  obtain ⟨hacc, _, _, hdr, _, _, _⟩ := quantis_status_table h1
+  have hst : r1.status = .ACC := by rw [hacc] at ha; simpa using ha
+  have hd1 : r1.draws = 1 := by rw [hdr, hst]; simp
+  obtain ⟨v0r0, v0r1, v1r1, v1r0, _, _, e1', e2', e3', e4', _, _, hea1, _, _⟩ := quantis_energy_rule_frames h1 hd1
+  obtain ⟨back, g0, x0, f1, x1, fwd, hp0, hp1, _, _, _, hg0v, hg0x, _, _, _, hf1v, hf1x, _⟩ :=
+    quantis_junction_identity h1 ha
+  rw [hp0, hp1] at h2
+  obtain ⟨w0r0, w0r1, w1r1, w1r0, _, _, f1', f2', f3', f4', _, _, hea2, _, _⟩ := quantis_energy_rule_frames h2 hd2
+  rw [hold0] at e1'; rw [hA] at e2'; rw [hold1] at e3'; rw [hB] at e4'
+  rw [hg0v, hC] at f1'; rw [hA'] at f2'; rw [hf1v, hB] at f3'; rw [hB'] at f4'
+  simp only [Option.some.injEq] at e1' e2' e3' e4' f1' f2' f3' f4'
+  subst e1' e2' e3' e4' f1' f2' f3' f4'
+  refine ⟨_, hea1, ?_⟩
+  rw [hea2]
+  congr 1
+  grind
+
+
+/-- **the QuanTIS junctions are built by C15's `paste_paths` and `Path.reverse`.**  In any heap of System
+    objects in which four path objects hold the values of the backward completion, the two one-step paths and
+    the forward completion, `paste_paths(new_path0, tmp_path0, maxlen=maxlen0)` and
+    `paste_paths(tmp_path1.reverse(None, rev_v=False), new_path1, maxlen=maxlen1)` — computed with the path
+    algebra of C15 (`PathAlg.paste`, `PathAlg.Path.reverse`: references re-used by `paste_paths`, copied by
+    `reverse`, truncation at the limit, `time_origin`) — hold exactly the frames `quantisCompleteCore` computes
+    with its private list functions (the two right-hand sides are its `new0` and `new1`); the System objects
+    that existed before are untouched. -/
+theorem quantis_paste_is_path_algebra (h : PathAlg.Heap) (B T0 T1 F : PathAlg.Path)
+    (back tmp0 tmp1 forw : List Frame) (m0 m1 : Nat)
+    (hB : PathAlg.vals h B = fvals back) (hT0 : PathAlg.vals h T0 = fvals tmp0)
+    (hT1 : PathAlg.vals h T1 = fvals tmp1) (hF : PathAlg.vals h F = fvals forw)
+    (hml : T1.maxlen = some 2) (hlen : tmp1.length ≤ 2) :
+    (∃ P0, quantisPaste0 B T0 m0 = .ok P0 ∧
+        PathAlg.vals h P0 = fvals (appendAll (appendAll [] m0 back.reverse) m0 tmp0.tail) ∧
+        P0.maxlen = some (m0 : Int) ∧ P0.timeOrigin = B.timeOrigin - (back.length : Int) + 1) ∧
+    (∃ h1 P1, quantisPaste1 h T1 F m1 = .ok (h1, P1) ∧
+        PathAlg.vals h1 P1 = fvals (appendAll (appendAll [] m1 tmp1.reverse.reverse) m1 forw.tail) ∧
+        P1.maxlen = some (m1 : Int) ∧ P1.timeOrigin = 0 - (tmp1.length : Int) + 1 ∧
+        ∀ r, r < h.sys.length → h1.look r = h.look r) :=
+  ⟨paste0_alg h B T0 back tmp0 m0 hB hT0,
+   paste1_alg h T1 F tmp1 forw m1 hT1 hF (by rw [hml]; simp [PathAlg.capLen]; omega)⟩
+
+/-- **ensemble membership under the exact guard.**  What `swap_members` needs from the two length limits is
+    only that the new [0-] path is shorter than `maxlen1`: the backward segment is generated into a path of
+    `maxlen1 - 1` frames but the length check of the new [0-] path compares with `maxlen0`, so a segment cut at
+    `maxlen1 - 1` without a crossing is noticed only if `maxlen0 ≤ maxlen1`
+    (`swap_members_maxlen_counterexample`: `maxlen0 = 9 > maxlen1 = 4`, new [0-] path of exactly `maxlen1`
+    frames).  Not a defect of /repo: both limits are the one `tis_set["maxlength"]` in every configuration. -/
+theorem swap_members_guard {e0 e1 : Ens} {old0 old1 : List Frame} {bw fw : Script} {xi : Rat} {r : Result}
+    (h : retisSwapZero e0 e1 old0 old1 bw fw xi = .ok r) (ha : r.accept = true)
+    (hg : r.path0.length < e1.maxlen)
+    (hbw : e1.maxlen ≤ bw.rest.length + 2) (hfw : e1.maxlen ≤ fw.rest.length + 2)
+    (hord : e0.i0 ≤ e0.i1 ∧ e0.i0 ≤ e0.i2) (hlam : e0.i2 = e1.i0)
+    (hv0 : ValidMinus e0 old0) (hv1 : ValidPlus e1 old1) :
+    ValidMinus e0 r.path0 ∧ ValidPlus e1 r.path1 ∧
+      r.path0.length < e0.maxlen ∧ r.path1.length < e1.maxlen := by
+  obtain ⟨pre0, a, b, c, d, post1, tmp0, s0, tmp1, s1, hold0, hold1, hprop0, hprop1, hp0, hp1, h20, hl0, h21, hl1,
+    hst0, _⟩ := accepted_shape h ha
+  have hlen0 : r.path0.length = tmp0.length + 1 := by rw [hp0]; simp
+  have hlen1 : r.path1.length = tmp1.length + 1 := by rw [hp1]; simp
+  obtain ⟨tpre0, tx0, _, htmp0, _, hnc0, hc0⟩ := propagate_crossed hprop0 (by omega) (by omega)
+  obtain ⟨tpre1, tx1, _, htmp1, _, hnc1, hc1⟩ := propagate_crossed hprop1 (by omega) (by omega)
+  obtain ⟨f0, mid0, l0, ho0, hne0, _, hmid0, _, _⟩ := hv0
+  obtain ⟨f1, mid1, l1, ho1, hne1, _, hmid1, _, _⟩ := hv1
+  have hd : d ∈ mid1 := second_mem_mid (hold1.symm.trans ho1) hne1
+  have hab := secondlast_mem_mid (hold0.symm.trans ho0) hne0
+  have hlo : e0.lo = e0.i0 := by unfold Ens.lo; omega
+  have hpath0 : r.path0 = tx0 :: tpre0.reverse ++ [d] := by rw [hp0, htmp0]; simp
+  have hpath1 : r.path1 = a :: tpre1 ++ [tx1] := by rw [hp1, htmp1]; simp
+  have hne_t0 : tpre0 ≠ [] := by
+    intro e; rw [e] at htmp0; rw [htmp0] at h20; simp at h20
+  have hne_t1 : tpre1 ≠ [] := by
+    intro e; rw [e] at htmp1; rw [htmp1] at h21; simp at h21
+  refine ⟨⟨tx0, tpre0.reverse, d, hpath0, by simpa using hne_t0, ?_, ?_, ?_, by omega⟩,
+    ⟨a, tpre1, tx1, hpath1, hne_t1, ?_, hnc1, hc1, by omega⟩, by omega, by omega⟩
+  · rcases hc0 with hl | hr
+    · right
+      refine ⟨?_, hl⟩
+      cases hsc : e0.scL with
+      | true => rfl
+      | false =>
+        have := (status0_acc hst0).2.2 hsc
+        rw [hpath0] at this
+        simp [startIsL, hlo] at this
+        omega
+    · left; exact hr
+  · intro g hg
+    exact hnc0 g (by simpa using hg)
+  · have := hmid1 d hd
+    unfold Crosses at this
+    omega
+  · have := hmid0 a hab.1
+    unfold Crosses at this
+    omega
+
+/-- the witness of `swap_members_maxlen_counterexample` sits exactly on the boundary of the guard -/
+example : Cex.res.path0.length = Cex.e1.maxlen := by decide
+
+/-! ### non-vacuity of the extension theorems -/
+namespace ExQ
+/-- energies V₀(x) = x, V₁(x) = 2x on the configuration's position -/
+def fr (o x v : Int) (vp : Int) : Frame := { op := o, cfg := ⟨x, v⟩, vr := false, vpot := some vp }
+def g (o x : Int) (vp : Int) : GenFrame := { op := o, cfg := ⟨x, 3⟩, vpot := some vp }
+def e0 : Ens := { i0 := -50, i1 := 0, i2 := 0, maxlen := 8, scL := false, scR := true, wf := false, cap := none }
+def e1 : Ens := { i0 := 0, i1 := 1, i2 := 3, maxlen := 8, scL := true, scR := false, wf := false, cap := none }
+def old0 : List Frame := [fr 1 100 1 100, fr (-1) 101 1 101, fr (-2) 102 1 102, fr 1 103 1 103]
+def old1 : List Frame := [fr (-1) 200 1 400, fr 1 201 1 402, fr 2 202 1 404, fr 4 203 1 406]
+def scA : Script := ⟨some 200, [g 1 500 500]⟩          -- engine 0 from old1[0] (x = 200): V₀ = 200
+def scB : Script := ⟨some 204, [g 1 600 1200]⟩         -- engine 1 from old0[-2] (x = 102): V₁ = 204
+def scC : Script := ⟨some 200, [g (-2) 300 300, g (-1) 301 301, g 1 302 302, g 1 303 303, g 1 304 304, g 1 305 305]⟩
+def scD : Script := ⟨some 1200, [g 2 400 800, g 1 401 802, g (-1) 402 804, g 1 403 806, g 1 404 808, g 1 405 810]⟩
+end ExQ
+
+/-- an accepted QuanTIS swap on well-formed paths: status table, junction frames and exponent
+    `β₀(102 − 200) − β₁(204 − 400) = 98` for β = 1 -/
+example : ∃ r, quantisSwapZero ExQ.e0 ExQ.e1 ([ExQ.fr 1 100 1 100, ExQ.fr (-1) 101 1 101] ++ [ExQ.fr (-2) 102 1 102, ExQ.fr 1 103 1 103])
+      (ExQ.fr (-1) 200 1 400 :: [ExQ.fr 1 201 1 402, ExQ.fr 2 202 1 404, ExQ.fr 4 203 1 406])
+      ExQ.scA ExQ.scB ExQ.scC ExQ.scD false 1 1 0 1 = .ok r ∧
+    r.accept = true ∧ r.draws = 1 ∧ r.expArg = some (expArgOf 1 1 102 200 400 204) ∧
+    expArgOf 1 1 102 200 400 204 = 98 ∧ quantisDrawAt r = some 2 ∧
+    ops r.path0 = [1, -1, -2, -1, 1] ∧ ops r.path1 = [-2, 1, 2, 1, -1] :=
+  ⟨_, rfl, rfl, rfl, rfl, by unfold expArgOf; grind, rfl, rfl, rfl⟩
+
+/-- the accepted pair swapped back with the engines' energies V₀(x) = x, V₁(x) = 2x: every hypothesis of
+    `quantis_detailed_balance` holds and the exponents are 98 and −98 -/
+example : ∃ r1 r2,
+    quantisSwapZero ExQ.e0 ExQ.e1 ([ExQ.fr 1 100 1 100, ExQ.fr (-1) 101 1 101] ++ [ExQ.fr (-2) 102 1 102, ExQ.fr 1 103 1 103])
+      (ExQ.fr (-1) 200 1 400 :: [ExQ.fr 1 201 1 402, ExQ.fr 2 202 1 404, ExQ.fr 4 203 1 406])
+      ExQ.scA ExQ.scB ExQ.scC ExQ.scD false 1 1 0 1 = .ok r1 ∧ r1.accept = true ∧
+    quantisSwapZero ExQ.e0 ExQ.e1 r1.path0 r1.path1 ⟨some 102, [ExQ.g 1 700 700]⟩ ⟨some 400, [ExQ.g 1 800 1600]⟩
+      ExQ.scC ExQ.scD true 1 1 0 1 = .ok r2 ∧ r2.draws = 1 ∧
+    r1.expArg = some (expArgOf 1 1 102 200 400 204) ∧ r2.expArg = some (expArgOf 1 1 200 102 204 400) ∧
+    expArgOf 1 1 200 102 204 400 = - expArgOf 1 1 102 200 400 204 ∧
+    (ExQ.fr (-2) 102 1 102).vpot = some ((fun x => x) (ExQ.fr (-2) 102 1 102).cfg.x) ∧
+    (ExQ.fr (-1) 200 1 400).vpot = some ((fun x => 2 * x) (ExQ.fr (-1) 200 1 400).cfg.x) :=
+  ⟨_, _, rfl, rfl, rfl, rfl, rfl, rfl, by unfold expArgOf; grind, rfl, rfl⟩
+
+/-- every pre-check of the QuanTIS table is reachable: QNE (energy missing), QLL (shooting point on λ0),
+    QS0 / QS1 (one-step frame on λ0: not strictly right), QEA (ξ = 1 > p = 0) -/
+example :
+    (quantisSwapZero ExQ.e0 ExQ.e1 [Ex.fr 1 0, { Ex.fr (-1) 0 with vpot := none }, Ex.fr 1 0] ExQ.old1 ExQ.scA ExQ.scB ExQ.scC ExQ.scD
+      false 1 1 0 1).toOption.map (·.status) = some .QNE ∧
+    (quantisSwapZero ExQ.e0 ExQ.e1 [Ex.fr 1 0, Ex.fr 0 0, Ex.fr 1 0] ExQ.old1 ExQ.scA ExQ.scB ExQ.scC ExQ.scD
+      false 1 1 0 1).toOption.map (·.status) = some .QLL ∧
+    (quantisSwapZero ExQ.e0 ExQ.e1 ExQ.old0 ExQ.old1 ⟨some 0, [ExQ.g 0 1 1]⟩ ExQ.scB ExQ.scC ExQ.scD
+      false 1 1 0 1).toOption.map (fun r => (r.status, r.st0, r.st1)) = some (.QS0, .QS0, .QS0) ∧
+    (quantisSwapZero ExQ.e0 ExQ.e1 ExQ.old0 ExQ.old1 ExQ.scA ⟨some 0, [ExQ.g 0 1 1]⟩ ExQ.scC ExQ.scD
+      false 1 1 0 1).toOption.map (fun r => (r.status, r.st0, r.st1)) = some (.QS1, .none, .QS1) ∧
+    (quantisSwapZero ExQ.e0 ExQ.e1 ExQ.old0 ExQ.old1 ExQ.scA ExQ.scB ExQ.scC ExQ.scD
+      false 1 1 1 0).toOption.map (fun r => (r.status, r.draws)) = some (.QEA, 1) := by
+  refine ⟨by decide, by decide, by decide, by decide, by decide⟩
+
+/-- a failed [0+] completion (FTS: the forward program leaves at once) returns the new [0-] path marked 'ACC' -/
+example : (quantisSwapZero ExQ.e0 ExQ.e1 ExQ.old0 ExQ.old1 ExQ.scA ⟨some 204, [ExQ.g 4 600 1200]⟩ ExQ.scC
+      ⟨some 0, []⟩ false 1 1 0 1).toOption.map (fun r => (r.accept, r.status, r.st0, r.st1)) =
+    some (false, .FTS, .ACC, .FTS) := by decide
+
+/-- the two pastes of the accepted swap above on a concrete heap, through C15's functions: frames and time origins -/
+example : (quantisPasteRun
+      [⟨-1, ⟨200, -1⟩, true, some 200⟩, ⟨-2, ⟨300, 3⟩, true, some 300⟩, ⟨-1, ⟨301, 3⟩, true, some 301⟩, ⟨1, ⟨302, 3⟩, true, some 302⟩]
+      [⟨-1, ⟨200, 1⟩, false, some 200⟩, ⟨1, ⟨500, 3⟩, false, some 500⟩]
+      [⟨-2, ⟨102, 1⟩, false, some 204⟩, ⟨1, ⟨600, 3⟩, false, some 1200⟩]
+      [⟨1, ⟨600, 3⟩, false, some 1200⟩, ⟨2, ⟨400, 3⟩, false, some 800⟩, ⟨1, ⟨401, 3⟩, false, some 802⟩, ⟨-1, ⟨402, 3⟩, false, some 804⟩]
+      8 8).map (fun x => (ops x.1.1, x.1.2, ops x.2.1, x.2.2)) =
+    some ([1, -1, -2, -1, 1], -3, [-2, 1, 2, 1, -1], -1) := by decide
+
+/-- hypotheses of `quantis_paste_is_path_algebra` on a concrete heap -/
+example : ∃ h rb r0 r1 rf,
+    PathAlg.vals h (pathOf 7 rb) = fvals [Ex.fr 1 0, Ex.fr 2 0] ∧ PathAlg.vals h (pathOf 2 r0) = fvals [Ex.fr 3 0, Ex.fr 4 0] ∧
+    PathAlg.vals h (pathOf 2 r1) = fvals [Ex.fr 5 0, Ex.fr 6 0] ∧ PathAlg.vals h (pathOf 7 rf) = fvals [Ex.fr 6 0, Ex.fr 7 0] ∧
+    (pathOf 2 r1).maxlen = some 2 :=
+  ⟨(allocFrames PathAlg.Heap.empty [Ex.fr 1 0, Ex.fr 2 0, Ex.fr 3 0, Ex.fr 4 0, Ex.fr 5 0, Ex.fr 6 0, Ex.fr 6 0, Ex.fr 7 0]).1,
+    [0, 1], [2, 3], [4, 5], [6, 7], by decide, by decide, by decide, by decide, rfl⟩
+
+/-! ### swapping twice with a velocity-dependent order parameter -/
+
+theorem detV_unfold {st : Cfg → Cfg} {opf : Cfg → Int} {vf : Cfg → Option Int} {n : Nat} {e0 e1 : Ens}
+    {old0 old1 : List Frame} {xi : Rat} {r : Result}
+    (h : retisSwapZeroDetV st opf vf n e0 e1 old0 old1 xi = .ok r) (ha : r.accept = true) :
+    ∃ first1 last0, old1.head? = some first1 ∧ old0.getLast? = some last0 ∧
+      retisSwapZero e0 e1 old0 old1 (detScriptV st opf vf true n (startCfg first1 true))
+        (detScriptV st opf vf false n (startCfg last0 false)) xi = .ok r := by
+  unfold retisSwapZeroDetV at h
+  cases h1 : old1.head? with
+  | none =>
+    simp only [h1] at h
+    obtain ⟨_, _, _, c, d, post1, _, _, _, _, _, hold1, _⟩ := accepted_shape h ha
+    rw [hold1] at h1; simp at h1
+  | some first1 =>
+    cases h0 : old0.getLast? with
+    | none =>
+      simp only [h1, h0] at h
+      obtain ⟨pre0, a, b, _, _, _, _, _, _, _, hold0, _⟩ := accepted_shape h ha
+      rw [hold0] at h0; simp at h0
+    | some last0 =>
+      simp only [h1, h0] at h
+      exact ⟨first1, last0, rfl, rfl, h⟩
+
+/-- **swapping twice restores the paths — velocity-dependent order parameters included.**  The hypothesis
+    `OpEven` of `swap_twice_identity` is an artefact of evaluating the order function on the STORED configuration:
+    every engine evaluates it on the physical phase point (`calculate_order` negates the stored velocities of a
+    `vel_rev` frame; model `orbitV`).  With that engine model the statement needs only determinism and
+    time-reversibility: let both engines be one deterministic engine `D` that is
+    time-reversible (`D.step (flip (D.step c)) = flip c`), with ANY order function of the phase point,
+    running at least `maxlen1 - 2` steps per call; let the old paths be valid
+    members of their ensembles and trajectories of `D` (whatever their `vel_rev` flags), and
+    `maxlen0 ≤ maxlen1`.  If the swap is accepted and the swap of the two new paths is accepted again,
+    the result has the order-value sequences — and indeed the phase points — of the original paths. -/
+theorem swap_twice_identity_veldep (D : Dyn) (hrev : D.Reversible) (n : Nat)
+    {e0 e1 : Ens} {old0 old1 : List Frame} {xi1 xi2 : Rat} {r1 r2 : Result}
+    (h1 : retisSwapZeroDetV D.step D.opf D.vf n e0 e1 old0 old1 xi1 = .ok r1) (ha1 : r1.accept = true)
+    (h2 : retisSwapZeroDetV D.step D.opf D.vf n e0 e1 r1.path0 r1.path1 xi2 = .ok r2) (ha2 : r2.accept = true)
+    (hm : e0.maxlen ≤ e1.maxlen) (hn : e1.maxlen ≤ n + 2)
+    (hv0 : ValidMinus e0 old0) (hv1 : ValidPlus e1 old1) (ht0 : IsTraj D old0) (ht1 : IsTraj D old1) :
+    ops r2.path0 = ops old0 ∧ ops r2.path1 = ops old1 ∧
+      r2.path0.map Frame.phys = old0.map Frame.phys ∧ r2.path1.map Frame.phys = old1.map Frame.phys := by
+  -- first swap
+  obtain ⟨_, _, _, _, h1'⟩ := detV_unfold h1 ha1
+  obtain ⟨pre0, a, b, c, d, post1, tmp0, s0, tmp1, s1, hold0, hold1, hprop0, hprop1, hp0, hp1, h20, _, h21, _, _, _⟩ :=
+    accepted_shape h1' ha1
+  obtain ⟨t0, ht0'⟩ := propagate_head hprop0 (by omega)
+  obtain ⟨t1, ht1'⟩ := propagate_head hprop1 (by omega)
+  -- second swap
+  obtain ⟨first1', last0', hf1, hl0, h2'⟩ := detV_unfold h2 ha2
+  obtain ⟨pre0', a', b', c', d', post1', tmp0', s0', tmp1', s1', hold0', hold1', hprop0', hprop1', hp0', hp1',
+    _, hl0', _, hl1', _, _⟩ := accepted_shape h2' ha2
+  -- identify the frames of the second swap
+  have hc' : c' = a ∧ d'.op = b.op ∧ d'.phys = b.phys := by
+    rw [hp1, ht1'] at hold1'
+    simp only [List.cons.injEq] at hold1'
+    refine ⟨hold1'.1.symm, ?_, ?_⟩
+    · rw [← hold1'.2.1]
+    · rw [← hold1'.2.1]; exact phys_start b false _ _
+  have hb' : a'.op = c.op ∧ a'.phys = c.phys ∧ b' = d := by
+    rw [hp0, ht0'] at hold0'
+    simp only [List.reverse_cons, List.append_assoc, List.singleton_append] at hold0'
+    have := (List.append_inj' hold0' rfl).2
+    simp only [List.cons.injEq, and_true] at this
+    refine ⟨?_, ?_, this.2.symm⟩
+    · rw [← this.1]
+    · rw [← this.1]; exact phys_start c true _ _
+  obtain ⟨hc'1, hd'op, hd'phys⟩ := hc'
+  obtain ⟨ha'op, ha'phys, hb'd⟩ := hb'
+  subst hc'1 hb'd
+  have hfirst1' : first1' = c' := by
+    rw [hold1'] at hf1; simpa using hf1.symm
+  have hlast0' : last0' = b' := by
+    rw [hold0'] at hl0; simpa using hl0.symm
+  subst hfirst1' hlast0'
+  -- the old paths as members and trajectories
+  obtain ⟨f0, mid0, l0, ho0, hne0, hf0, hmid0, _, hlen0⟩ := hv0
+  obtain ⟨f1, mid1, l1, ho1, hne1, _, hmid1, hcl1, hlen1⟩ := hv1
+  obtain ⟨hsp0, _⟩ := secondlast_split (hold0.symm.trans ho0)
+  have hsp1 : last0' :: post1 = mid1 ++ [l1] := by
+    have := hold1.symm.trans ho1
+    simp only [List.cons_append, List.cons.injEq] at this
+    exact this.2
+  -- backward call of the second swap retraces old [0-]
+  have hback := propagate_retraceV D Cfg.flip true (fun c => by simp [physOf, ZeroSwap.flip_flip])
+    (lst := pre0.reverse) (lpre := mid0.reverse) (lx := f0) hprop0' (by omega) (by omega)
+    (by
+      have := congrArg List.length hold0
+      simp at this ⊢; omega)
+    (startCfg_true first1')
+    (by
+      have hc : Consec (fun f g => g.phys = D.step f.phys) (pre0 ++ [first1']) := by
+        have := ht0.2; rw [hold0] at this
+        have e : pre0 ++ [first1', b] = (pre0 ++ [first1']) ++ [b] := by simp
+        rw [e] at this; exact this.prefix
+      have := consec_reverse hc
+      simp only [List.reverse_append, List.reverse_cons, List.reverse_nil, List.nil_append, List.cons_append] at this
+      refine Consec.imp ?_ this
+      intro u w huw
+      show D.step u.phys.flip = w.phys.flip
+      rw [huw]; exact hrev w.phys)
+    (by
+      intro f hf
+      apply ht0.1; rw [hold0]; simp at hf ⊢; exact Or.inl hf)
+    (by
+      have := congrArg List.reverse hsp0
+      simpa using this)
+    (by intro g hg; exact hmid0 g (by simpa using hg))
+    (by
+      rcases hf0 with h | ⟨_, h⟩
+      · exact Or.inr h
+      · exact Or.inl h)
+  -- forward call of the second swap retraces old [0+]
+  have hforw := propagate_retraceV D id false (fun c => by simp [physOf])
+    (lst := post1) (lpre := mid1) (lx := l1) hprop1' (by omega) (by omega)
+    (by
+      have := congrArg List.length hold1
+      simp at this ⊢; omega)
+    (startCfg_false last0')
+    (by
+      have := ht1.2; rw [hold1] at this
+      refine Consec.imp ?_ this.tail
+      intro u w huw
+      simp only [id] at huw ⊢
+      exact huw.symm)
+    (by
+      intro f hf
+      apply ht1.1; rw [hold1]; simp [hf])
+    hsp1 hmid1 hcl1
+  obtain ⟨hbp, hbo⟩ := hback
+  obtain ⟨hfp, hfo⟩ := hforw
+  have hb_eq : b = l0 := (secondlast_split (hold0.symm.trans ho0)).2
+  refine ⟨?_, ?_, ?_, ?_⟩
+  · rw [hp0', hold0]
+    simp only [ops, List.map_append, List.map_reverse, List.map_cons, List.map_nil] at hbo ⊢
+    rw [hbo, hd'op]; simp
+  · rw [hp1', hold1]
+    simp only [ops, List.map_cons] at hfo ⊢
+    rw [hfo, ha'op]
+  · rw [hp0', hold0]
+    simp only [List.map_append, List.map_reverse, List.map_cons, List.map_nil] at hbp ⊢
+    rw [hbp, hd'phys]; simp
+  · rw [hp1', hold1]
+    simp only [List.map_cons] at hfp ⊢
+    rw [hfp, ha'phys]
+
+
+/-- the double-well leap-frog engine with the velocity-dependent order parameter λ = 2x + v -/
+def dwVelDyn (a k : Int) : Dyn := { step := dwStep a k, opf := fun c => 2 * c.x + c.v, vf := fun _ => some 0 }
+
+namespace ExVel
+def fr (x v : Int) (vr : Bool) : Frame :=
+  { op := 2 * x + (if vr then -v else v), cfg := ⟨x, v⟩, vr := vr, vpot := some 0 }
+def e0 : Ens := { i0 := -1000000, i1 := -16, i2 := -16, maxlen := 15, scL := false, scR := true, wf := false, cap := none }
+def e1 : Ens := { i0 := -16, i1 := -16, i2 := -1, maxlen := 15, scL := true, scR := false, wf := false, cap := none }
+/-- λ = -8, -17, -14 -/
+def old0 : List Frame := [fr (-4) 0 false, fr (-7) (-3) false, fr (-8) 2 false]
+/-- λ = -21, -3, 17 (the last frame stored with reversed velocities) -/
+def old1 : List Frame := [fr (-12) 3 false, fr (-4) 5 false, fr 6 (-5) true]
+end ExVel
+
+/-- every hypothesis of `swap_twice_identity_veldep` holds for this pair (a = k = 64, λ = 2x + v is NOT even in v) -/
+example : ∃ r1 r2,
+    retisSwapZeroDetV (dwVelDyn 64 64).step (dwVelDyn 64 64).opf (dwVelDyn 64 64).vf 17 ExVel.e0 ExVel.e1 ExVel.old0 ExVel.old1 (1/2) = .ok r1 ∧
+    r1.accept = true ∧ ops r1.path0 = [-8, -25, -21, -3] ∧ ops r1.path1 = [-17, -14, -12, -18] ∧
+    retisSwapZeroDetV (dwVelDyn 64 64).step (dwVelDyn 64 64).opf (dwVelDyn 64 64).vf 17 ExVel.e0 ExVel.e1 r1.path0 r1.path1 (1/2) = .ok r2 ∧
+    r2.accept = true ∧ (dwVelDyn 64 64).Reversible ∧ ¬ (dwVelDyn 64 64).OpEven ∧
+    ExVel.e0.maxlen ≤ ExVel.e1.maxlen ∧ ExVel.e1.maxlen ≤ 17 + 2 ∧
+    ValidMinus ExVel.e0 ExVel.old0 ∧ ValidPlus ExVel.e1 ExVel.old1 ∧
+    IsTraj (dwVelDyn 64 64) ExVel.old0 ∧ IsTraj (dwVelDyn 64 64) ExVel.old1 := by
+  refine ⟨_, _, rfl, rfl, rfl, rfl, rfl, rfl, dw_reversible 64 64, ?_, by decide, by decide, ?_, ?_, ?_, ?_⟩
+  · intro h
+    have := h ⟨0, 1⟩
+    revert this; decide
+  · exact ⟨ExVel.fr (-4) 0 false, [ExVel.fr (-7) (-3) false], ExVel.fr (-8) 2 false,
+      rfl, by simp, Or.inl (by decide), by decide, by decide, by decide⟩
+  · exact ⟨ExVel.fr (-12) 3 false, [ExVel.fr (-4) 5 false], ExVel.fr 6 (-5) true,
+      rfl, by simp, by decide, by decide, by decide, by decide⟩
+  · exact ⟨by decide, by decide, by decide, trivial⟩
+  · exact ⟨by decide, by decide, by decide, trivial⟩
+
+/-! ### ensemble membership of an accepted QuanTIS swap -/
+
+theorem qstatus0_acc {e0 : Ens} {m : Nat} {p : List Frame} (h : qstatus0 e0 m p = .ACC) :
+    p.length < m ∧ 3 ≤ p.length ∧ (e0.scL = false → startIsL e0.lo p = false ∧ endIsL e0.lo p = false) := by
+  unfold qstatus0 at h
+  by_cases h1 : p.length ≥ m
+  · simp [h1] at h
+  · by_cases h2 : p.length < 3
+    · simp [h1, h2] at h
+    · by_cases h3 : (!e0.scL && (startIsL e0.lo p || endIsL e0.lo p)) = true
+      · simp [h1, h2, h3] at h
+      · refine ⟨by omega, by omega, ?_⟩
+        intro hsc
+        simp [hsc] at h3
+        exact h3
+
+theorem qstatus1_acc {lam : Int} {m : Nat} {p : List Frame} (h : qstatus1 lam m p = .ACC) :
+    p.length ≠ m ∧ 3 ≤ p.length ∧ startIsL lam p = true := by
+  unfold qstatus1 at h
+  by_cases h1 : p.length = m
+  · simp [h1] at h
+  · by_cases h2 : p.length < 3
+    · simp [h1, h2] at h
+    · by_cases h3 : startIsL lam p = true
+      · exact ⟨h1, by omega, h3⟩
+      · simp [h1, h2, h3] at h
+
+/-- **an accepted QuanTIS swap yields members of both ensembles** — without any assumption on the old paths
+    beyond their having the two shooting frames: for MD programs that do not end before the length limit,
+    ordered [0-] interfaces, the shared interface λ0 and `maxlen0 ≤ maxlen1` (QuanTIS reads both limits from
+    the [0-] settings), the new [0-] path starts outside (right of λ0, or left of λ₋₁ only if 'L' is an allowed
+    start), stays inside `[λ₋₁, λ0]` and ends strictly right of λ0; the new [0+] path starts strictly left of
+    λ0, stays inside `[λ0, λN]` in between and ends outside; both are shorter than the limit. -/
+theorem quantis_swap_members {e0 e1 : Ens} {pre0 rest1 : List Frame} {sp1 last sp0 : Frame}
+    {scA scB scC scD : Script} {aa : Bool} {b0 b1 xi p : Rat} {r : Result}
+    (h : quantisSwapZero e0 e1 (pre0 ++ [sp1, last]) (sp0 :: rest1) scA scB scC scD aa b0 b1 xi p = .ok r)
+    (ha : r.accept = true)
+    (hC : e0.maxlen ≤ scC.rest.length + 2) (hD : e0.maxlen ≤ scD.rest.length + 2)
+    (hord : e0.i0 ≤ e0.i1 ∧ e0.i0 ≤ e0.i2) (hlam : e0.i2 = e1.i0) (hm : e0.maxlen ≤ e1.maxlen) :
+    ValidMinus e0 r.path0 ∧ ValidPlus e1 r.path1 := by
+  obtain ⟨_, _, _, _, cE⟩ := quantisPre_cases e0 pre0 rest1 sp1 last sp0 scA scB b0 b1
+  obtain ⟨hacc, _, _, hdr, _, _, _⟩ := quantis_status_table h
+  have hst : r.status = .ACC := by rw [hacc] at ha; simpa using ha
+  have hd : r.draws = 1 := by rw [hdr, hst]; simp
+  obtain ⟨v0r0, v0r1, v1r1, v1r0, g0, g1, hv1, hA, hv0, hB, hg0, hg1, _, _, _⟩ := quantis_energy_rule_frames h hd
+  obtain ⟨_, _, hl0, hl1, _, _⟩ := (quantis_input_table h).2.2.2.2.mp hd
+  obtain ⟨hok, _⟩ := cE g0 g1 v0r0 v1r1 hv1 hv0 hl0 hl1 hg0 hg1
+  obtain ⟨_, _, _, hrun⟩ := quantis_run_reached (hok v0r1 v1r0 hA hB) h
+  obtain ⟨out, hc, hout, hp0, hp1, _⟩ := hrun ha
+  obtain ⟨back, sb, spl, forw, sf, hpb, hn0, hq0, hlast, _, hpf, hn1, hq1, _, _⟩ := core_acc hc hout
+  have hspl : spl = genFrame g1 false := by simpa using hlast.symm
+  subst hspl
+  obtain ⟨hlt0, h30, hL0⟩ := qstatus0_acc hq0
+  obtain ⟨hne1, h31, hS1⟩ := qstatus1_acc hq1
+  have hlo : e0.lo = e0.i0 := by unfold Ens.lo; omega
+  -- the one-step frames are strictly right of λ0
+  have hx0 : g0.op > e0.i2 := by
+    unfold oneStep at hg0
+    split at hg0
+    · cases hg0
+    · split at hg0
+      · split at hg0
+        · rename_i hh; simp only [Option.some.injEq] at hg0; rw [← hg0]; exact hh
+        · cases hg0
+      · cases hg0
+  -- [0-]: the backward completion crossed
+  have hbl : back.length + 1 < e0.maxlen ∧ 2 ≤ back.length := by
+    rw [hn0] at hlt0 h30; simp at hlt0 h30; omega
+  obtain ⟨tpre, tx, _, hback, _, hnc, hcx⟩ := propagate_crossed hpb (by omega) (by omega)
+  have hne_t : tpre ≠ [] := by
+    intro e; rw [e] at hback; rw [hback] at hbl; simp at hbl
+  have hpath0 : r.path0 = tx :: tpre.reverse ++ [genFrame g0 false] := by
+    rw [hp0, hn0, hback]; simp
+  -- [0+]: the forward completion crossed
+  have hforw_le : forw.length ≤ e0.maxlen - 1 := by
+    obtain ⟨_, _, _, hfo⟩ := propagate_spec hpf
+    have : (ops forw).length ≤ e0.maxlen - 1 := by
+      cases hfo with
+      | crossed pre x post hx ho hpre hcx hlen => rw [ho]; simp; simp at hlen; omega
+      | full pre post hx ho hpre hlen => omega
+      | dry ho hpre hlen => omega
+    simpa [ops_length] using this
+  have hfl : forw.length + 1 < e0.maxlen ∧ 2 ≤ forw.length := by
+    have e : out.2.2.2.1.length = forw.length + 1 := by
+      rw [hn1]; simp
+      have : 1 ≤ forw.length := by
+        rw [hn1] at h31; simp at h31; omega
+      omega
+    rw [e] at hne1 h31
+    omega
+  obtain ⟨fpre, fx, _, hforw, _, hfnc, hfcx⟩ := propagate_crossed hpf (by omega) (by omega)
+  obtain ⟨ft, hft⟩ := propagate_head hpf (by omega)
+  -- fpre = head :: fpre'
+  cases fpre with
+  | nil => rw [hforw] at hfl; simp at hfl
+  | cons fh fpre' =>
+    have hfh : fh.op = g1.op := by
+      rw [hforw] at hft
+      simp only [List.cons_append, List.cons.injEq] at hft
+      rw [hft.1]; rfl
+    have hpath1 : r.path1 = startFrame sp1 scB :: (genFrame g1 false :: fpre') ++ [fx] := by
+      rw [hp1, hn1, hforw]; simp
+    refine ⟨⟨tx, tpre.reverse, genFrame g0 false, hpath0, by simpa using hne_t, ?_, ?_, ?_, ?_⟩,
+      ⟨startFrame sp1 scB, genFrame g1 false :: fpre', fx, hpath1, by simp, ?_, ?_, ?_, ?_⟩⟩
+    · rcases hcx with hl | hr
+      · right
+        refine ⟨?_, hl⟩
+        cases hsc : e0.scL with
+        | true => rfl
+        | false =>
+          have := (hL0 hsc).1
+          rw [hn0, hback] at this
+          simp [startIsL, hlo] at this
+          omega
+      · left; exact hr
+    · intro g hg; exact hnc g (by simpa using hg)
+    · show g0.op ≥ e0.i2
+      omega
+    · rw [hp0]; omega
+    · show sp1.op ≤ e1.i0
+      omega
+    · intro g hg
+      rcases List.mem_cons.mp hg with rfl | hg'
+      · have := hfnc fh (by simp)
+        rw [hfh] at this; exact this
+      · exact hfnc g (by simp [hg'])
+    · exact hfcx
+    · rw [hp1, hn1]; simp; omega
+
+/-- the accepted QuanTIS swap of `ExQ` meets every hypothesis of `quantis_swap_members` -/
+example : ∃ r, quantisSwapZero ExQ.e0 ExQ.e1 ([ExQ.fr 1 100 1 100, ExQ.fr (-1) 101 1 101] ++ [ExQ.fr (-2) 102 1 102, ExQ.fr 1 103 1 103])
+      (ExQ.fr (-1) 200 1 400 :: [ExQ.fr 1 201 1 402, ExQ.fr 2 202 1 404, ExQ.fr 4 203 1 406])
+      ExQ.scA ExQ.scB ExQ.scC ExQ.scD false 1 1 0 1 = .ok r ∧ r.accept = true ∧
+    ExQ.e0.maxlen ≤ ExQ.scC.rest.length + 2 ∧ ExQ.e0.maxlen ≤ ExQ.scD.rest.length + 2 ∧
+    (ExQ.e0.i0 ≤ ExQ.e0.i1 ∧ ExQ.e0.i0 ≤ ExQ.e0.i2) ∧ ExQ.e0.i2 = ExQ.e1.i0 ∧ ExQ.e0.maxlen ≤ ExQ.e1.maxlen :=
+  ⟨_, rfl, rfl, by decide, by decide, by decide, rfl, by decide⟩
 
 end Infretis.C11
